@@ -5,7 +5,7 @@
    dict).  BLOCKWISE (emulated sub-channel) is out of scope: OtherError.
    No proofs here. *)
 From VF Require Import Base.Prelude Gen.Enums Gen.Configs Gen.Registry Gen.Checks
-     Gen.MatDesc Gen.InstChecks Model.Recipe Model.Check Model.Graph.
+     Gen.MatDesc Gen.InstChecks Gen.Scopes Model.Recipe Model.Check Model.Graph.
 
 Inductive qdim_t := QdNone | QdDim (d : Z).
 Definition qdim_eqb (a b : qdim_t) : bool :=
@@ -390,7 +390,8 @@ Section Plan.
     rs' <- foldM merge_result (fst r) rs ;;
     Ok (rs', snd r).
 
-  Definition pops_of (opcodes : list Z) (g : subgraph) (scopes : list (Z * bool)) : list pop :=
+  Definition pops_of (scope_id : list stok -> Z) (opcodes : list Z) (g : subgraph)
+           (adjy : list bool) : list pop :=
     let real := map (fun io => let '(i, o) := io in
                   {| po_id := i;
                      po_key := match nthZ opcodes (o_code o) with
@@ -401,11 +402,14 @@ Section Plan.
                   po_outs := sg_inputs g; po_scope := 0; po_adjy := false |};
                {| po_id := -1; po_key := Some Op_OUTPUT; po_ins := sg_outputs g;
                   po_outs := []; po_scope := 0; po_adjy := false |}] in
-    (* scopes: per op (scope id, adjY flag) supplied with the model *)
-    map (fun ps => let '(p, sc) := ps in
+    (* the scope is built by the translated ParamsGenerator._get_op_scope and
+       interned by [scope_id]; adjY flags of the real ops come with the model *)
+    map (fun ps => let '(p, a) := ps in
            {| po_id := po_id p; po_key := po_key p; po_ins := po_ins p;
-              po_outs := po_outs p; po_scope := fst sc; po_adjy := snd sc |})
-        (combine (real ++ io) scopes).
+              po_outs := po_outs p;
+              po_scope := scope_id (scope_params_generator (po_outs p));
+              po_adjy := a |})
+        (combine (real ++ io) (adjy ++ [false; false])).
 
   (* ---- buffer sharing check (after the fix: constant buffers only) ---- *)
   Fixpoint pterm_eqb (a b : pterm) : bool :=
@@ -522,23 +526,26 @@ Section Plan.
       end) (buffer_groups m) tt.
 
   (* generate_quantization_parameters *)
-  Definition plan (m : model) (scopes : list (list (Z * bool))) (stats : option (list name_t))
+  Variable scope_id : Z -> list stok -> Z.      (* subgraph index, scope tokens -> interned scope string *)
+  Definition plan (m : model) (scopes : list (list bool)) (stats : option (list name_t))
     : res (results * store) :=
-    let empty := match stats with None => true | Some [] => true | _ => false end in
+    let empty := match stats with None => true | Some _ => false end in   (* `model_qsvs is None` *)
     if need_calibration rules && empty then Err RuntimeError else
     let s0 : store := match stats with
                       | Some ns => map (fun n => (n, VStat n)) ns | None => [] end in
     r <- foldM (fun st gs =>
-           let '(g, sc) := gs in
-           foldM (fun st op => plan_op st (sg_tensors g) op) (pops_of (m_opcodes m) g sc) st)
-         (combine (m_subgraphs m) scopes) ([], s0) ;;
+           let '(gi, (g, sc)) := gs in
+           foldM (fun st op => plan_op st (sg_tensors g) op)
+                 (pops_of (scope_id gi) (m_opcodes m) g sc) st)
+         (enumerate (combine (m_subgraphs m) scopes)) ([], s0) ;;
     Ok r.
 End Plan.
 
 (* full generate_quantization_parameters incl. the post-processing check *)
-Definition plan_checked (matches : Z -> Z -> bool) (rules : state) (m : model)
-           (scopes : list (list (Z * bool))) (stats : option (list name_t))
+Definition plan_checked (matches : Z -> Z -> bool) (rules : state)
+           (scope_id : Z -> list stok -> Z) (m : model)
+           (scopes : list (list bool)) (stats : option (list name_t))
   : res (list tplan * list (name_t * vterm)) :=
-  r <- plan matches rules (m_buffers m) m scopes stats ;;
+  r <- plan matches rules (m_buffers m) scope_id m scopes stats ;;
   check_buffer_sharing_with (m_buffers m) (term_class (terms_of (fst r))) m (fst r) ;;;
   Ok r.
